@@ -111,7 +111,7 @@ type c02Case struct {
 	// error to 418 + {"c02":"business-error"}
 	EH int `json:"eh,omitempty"`
 	// Full-chain tier only (the guards-only composition ignores them):
-	// MW pass-through user middlewares installed with Server.Use (the first before, the second after the routes are added);
+	// MW user middlewares installed with Server.Use, each setting a marker header of its own and passing the call on (the first before, the second after the routes are added);
 	// CP Config.CpuThreshold 900 in a process whose shedders are switched off (Mode dev / load.Disable): the shedding
 	// handler and its status-recording writer are in the chain, the shedder itself never drops;
 	// NN Config.Name empty (metrics are named after host:port)
@@ -301,6 +301,8 @@ func c02Chunk(id, step, n int) []byte {
 	return bytes.Repeat([]byte(fmt.Sprintf("<%s%d.%d>", c02Marker, id, step)), n)
 }
 
+func c02MwKey(k int) string { return fmt.Sprintf("%sMw%d", c02HdrPrefix, k) }
+
 func c02HdrKey(id, step int) string { return fmt.Sprintf("%s%d-%d", c02HdrPrefix, id, step) }
 func c02HdrVal(id, step int) string { return fmt.Sprintf("v%d.%d", id, step) }
 
@@ -479,6 +481,13 @@ func c02MakePlan(c c02Case, id int, q c02Req) c02Plan { return c02MakePlanX(c, i
 // validity check only need instants and flags; large bodies are built once per run).
 func c02MakePlanX(c c02Case, id int, q c02Req, withBody bool) c02Plan {
 	p := c02Plan{d: -1, hdr: map[string]string{}, code: http.StatusOK}
+	if c02FullChain {
+		// user middlewares installed with Server.Use are part of what the application registered as its handler:
+		// each sets a marker header before it hands the call on, inside the guards
+		for k := 1; k <= c.MW; k++ {
+			p.hdr[c02MwKey(k)] = "on"
+		}
+	}
 	bodyLen := 0
 	add := func(b func() []byte, n int) {
 		bodyLen += n
